@@ -10,6 +10,10 @@ CHECKS = {
          "Synthetic endpoints declared with the public macros (one per field-attribute kind: path, query, query_all, required/optional headers, body fields, newtype body, raw body) and a sample of real client / federation / appservice / push-gateway endpoints plus the client error response travel request -> HTTP -> router (own path matcher and percent-decoder) -> request' -> HTTP and must be identical field by field and byte by byte, over a reserved-character alphabet; for every endpoint METADATA scanned from the tree at check time (211 + 5 synthetic histories) x all 2^15 subsets of Matrix versions (quick: every distinct history shape) make_endpoint_url must equal the reference selection; Authorization header per AuthScheme x token mode; X-Matrix values and header texts round-trip.",
          "Trusted: the hand-written router / percent-decoder / selection reference, http crate types. Excluded by construction and counted: empty path arguments, `opt=` for optional query values (form encoding cannot express Some(\"\")), values the encoder refuses. Two open known findings (non-ASCII header values, default Content-Type on raw bodies).",
          "DESIGN.md section 5 C16"),
+ "C17": ("vf-wire", "mutation-based fuzzing driven by proptest through supervised worker processes: byte-level and structure-level mutations of valid seeds for 46 entry points, crash / abort / hang detection and an isolation canary",
+         "Valid seeds of 46 wire-facing entry points are mutated at byte level (bit flips, dictionary insertions, truncation, splices, boundary-length runs, invalid UTF-8) and structure level (field deletion/duplication/swap, type swaps, hostile identifiers, numeric extremes, JSON nesting to 1,000, HTML nesting to 21,845) and fed in long sequences to one supervised worker process per shard (calls on a 2 MiB stack): a reported panic, an abnormal process exit or a reproducible watchdog silence is a violation; every 250 calls the valid seeds are re-evaluated in the same process and must give byte-identical results (a rejected input leaves no state behind).",
+         "Bounds: inputs <= 64 KiB, JSON nesting <= 1,024, HTML nesting <= 21,845, 2 MiB stack. A watchdog hit not reproduced by three fresh 30 s runs is inconclusive (exit 2). One open known finding (HTML recursion: stack overflow beyond ~5,000 nested elements); nesting <= 1,024 remains a hard check.",
+         "DESIGN.md section 5 C17"),
  "C18": ("vf-events", "property-based testing (proptest): schema-driven event generation, typed round-trip fixpoint with a duplicate-rejecting reader, metamorphic key permutation / unknown-field insertion",
          "Events of 50 types generated from hand-written spec schemas (optional fields, unknown fields at several depths, key permutation, full / sync / stripped formats, unsigned variants, redacted forms for room versions 1-11 produced by the C04 reference redaction, unknown types): the matching Any* enum must deserialise them, expose the JSON's type / sender / ids / timestamp / state key, pick the redacted variant exactly when unsigned.redacted_because is present; typed content -> JSON -> typed -> JSON must be a fixpoint without duplicate keys that alters no value present and ignores key order and unknown fields; Raw returns the text byte for byte and get_field agrees with a full parse.",
          "Trusted: the hand-written schemas (client-server spec), the C04 reference redaction, serde_json as JSON reader on the oracle side plus an own duplicate-key detector. Unknown-type contents are not serialisable by design (totality only).",
